@@ -80,6 +80,10 @@ pub struct Flat {
     pub unresolvable: Vec<String>,
     /// (including file, child file, include as written) in paste order
     pub resolved: Vec<(String, String, String)>,
+    /// includes (as written) for which more than one file qualifies (several documented places,
+    /// or a documented place and the directory of an ancestor, which the tool also searches):
+    /// the statement does not say which one wins, the scenario is not judged
+    pub ambiguous: Vec<String>,
 }
 
 pub const MARKER: &str = "include found nowhere: ";
@@ -95,6 +99,25 @@ pub struct World<'a> {
 impl<'a> World<'a> {
     fn exists(&self, p: &str) -> bool {
         self.files.contains_key(p)
+    }
+    /// every existing file that the name could mean: documented places plus `extra` directories
+    fn all_candidates(&self, fdir: &str, ipaths: &[String], extra: &[String], name: &str) -> Vec<String> {
+        let mut cands: Vec<Option<String>> = vec![join_norm(self.cwd, name)];
+        if !name.starts_with("$R") && !name.starts_with('/') {
+            cands.push(join_norm(fdir, name));
+            for c in self.caller {
+                if let Some(d) = join_norm(self.cwd, c) {
+                    cands.push(join_norm(&d, name));
+                }
+            }
+            for d in ipaths.iter().chain(extra.iter()) {
+                cands.push(join_norm(d, name));
+            }
+        }
+        let mut v: Vec<String> = cands.into_iter().flatten().filter(|c| self.exists(c)).collect();
+        v.sort();
+        v.dedup();
+        v
     }
     /// documented lookup of `name` from a file in directory `fdir` with `ipaths` in scope
     fn find_documented(&self, fdir: &str, ipaths: &[String], name: &str) -> Option<String> {
@@ -128,7 +151,7 @@ impl<'a> World<'a> {
 pub fn paste(w: &World, main_file: &str) -> Result<Flat, String> {
     let mut flat = Flat::default();
     let mut out: Vec<String> = vec![];
-    fn go(w: &World, file: &str, inherited: &[String], flat: &mut Flat, out: &mut Vec<String>, depth: usize) -> Result<(), String> {
+    fn go(w: &World, file: &str, inherited: &[String], anc_dirs: &[String], flat: &mut Flat, out: &mut Vec<String>, depth: usize) -> Result<(), String> {
         if depth > 24 {
             return Err("model: include depth".into());
         }
@@ -170,9 +193,16 @@ pub fn paste(w: &World, main_file: &str) -> Result<Flat, String> {
                         scope.push(d.clone());
                     }
                 }
+                if w.all_candidates(&fdir, &scope, anc_dirs, &name).len() > 1 {
+                    flat.ambiguous.push(name.clone());
+                }
                 let target = match w.find_documented(&fdir, &scope, &name) {
                     Some(t) => Some(t),
                     None => match w.find_anywhere(&name) {
+                        None if w.files.keys().filter(|k| basename(k) == basename(&name)).count() > 1 => {
+                            flat.ambiguous.push(name.clone());
+                            None
+                        }
                         Some(t) => {
                             flat.undocumented.push(name.clone());
                             Some(t)
@@ -183,7 +213,9 @@ pub fn paste(w: &World, main_file: &str) -> Result<Flat, String> {
                 match target {
                     Some(t) => {
                         flat.resolved.push((file.to_string(), t.clone(), name.clone()));
-                        go(w, &t, &scope, flat, out, depth + 1)?;
+                        let mut anc2 = anc_dirs.to_vec();
+                        anc2.push(fdir.clone());
+                        go(w, &t, &scope, &anc2, flat, out, depth + 1)?;
                     }
                     None => {
                         flat.unresolvable.push(name.clone());
@@ -198,7 +230,7 @@ pub fn paste(w: &World, main_file: &str) -> Result<Flat, String> {
         }
         Ok(())
     }
-    go(w, main_file, &[], &mut flat, &mut out, 0)?;
+    go(w, main_file, &[], &[], &mut flat, &mut out, 0)?;
     flat.text = out.join("\n");
     flat.text.push('\n');
     Ok(flat)
